@@ -128,8 +128,11 @@ lc (mp_ptr rp, gmp_randstate_t rstate)
 	  mpn_rshift (tp, tp + xn, tn, cnt);
 	  MPN_COPY_INCR (rp, tp, xn + 1);
 	}
-      else			/* Even limb boundary.  */
-	MPN_COPY_INCR (rp, tp + xn, tn);
+      else			/* Even limb boundary.  The callers reserve
+				   BITS_TO_LIMBS (m2exp / 2) = xn limbs; for odd
+				   m2exp there is one more bit in tp[2*xn], which
+				   they never use and have no room for.  */
+	MPN_COPY_INCR (rp, tp + xn, xn);
     }
 
   TMP_FREE;
